@@ -193,7 +193,8 @@ def body_run(scn):
         if e.get("type") != "filter":
             continue
         evals += 1
-        v += [x for x in filter_oracle(e["out"], e["lb"], e["ub"], e["tol"], e["logged"], cons_viol if e["has_cons"] else None,
+        # the scenario's constraint applies to every candidate set of the run, whatever the call site passed on
+        v += [x for x in filter_oracle(e["out"], e["lb"], e["ub"], e["tol"], e["logged"], cons_viol,
                                        f"run {e['where']} {e['phase']}", site=f"{e['where']}:{e['phase'][0]}")
               if engine.signature(x) not in {engine.signature(y) for y in v}]
         Uin = np.atleast_2d(e["Uin"])
